@@ -118,11 +118,15 @@ func runC38a(env *kernel.Env) {
 	nnames := T.Range(1, maxNames)
 	maxOps := T.Range(3, 7) // per session
 	s := kernel.NewSched(env)
-	armedAny := false
-	for _, site := range []string{"lock.load", "lock.cas", "lock.create"} {
+	// lock.load is always armed: it is the entry of every poll attempt, and two
+	// waiters whose 100µs sleeps end at the same simulated instant would
+	// otherwise race for the lock in an order only the Go runtime decides (this
+	// was caught by the determinism self-check at a rate of 1 in 10^5 runs).
+	s.Arm("lock.load")
+	armedAny := true
+	for _, site := range []string{"lock.cas", "lock.create"} {
 		if T.Bool(3, 4) {
 			s.Arm(site)
-			armedAny = true
 		}
 	}
 	permute := T.Bool(1, 2)
